@@ -10,16 +10,18 @@
    not represented at all; of its arithmetic only "adding a span of seconds and
    nanoseconds to a zoned value moves the instant by exactly that many
    nanoseconds or fails when the result leaves the supported range" is assumed,
-   with jiff's documented limits as constants.  No proofs in this file. *)
+   with jiff's limits as constants generated from the implementation.  No proofs in this file. *)
 From Coq Require Import QArith Qround ZArith String.
+From NV Require Import Gen.TimeLimits.
 Local Open Scope Z_scope.
 
 Definition ns_per_s : Z := 1000000000.
-(* jiff::Timestamp::MIN / MAX (seconds -377705023201 ..= 253402207200, + 999999999 ns) *)
-Definition ts_min : Z := -377705023201 * ns_per_s.
-Definition ts_max : Z := 253402207200 * ns_per_s + 999999999.
-(* jiff::Span seconds limit (try_seconds) *)
-Definition span_sec_max : Z := 631107417600.
+(* jiff::Timestamp::MIN / MAX and the jiff::Span seconds limit (try_seconds) are NOT hard-coded: they are read
+   from the running implementation on every check run (Gen/TimeLimits.v, hook datetime_limits); the table
+   lemma Time/Proofs.v limits_sane states what the theorems need of them *)
+Definition ts_min : Z := gen_ts_min_s * ns_per_s.
+Definition ts_max : Z := gen_ts_max_s * ns_per_s + gen_ts_max_subsec_ns.
+Definition span_sec_max : Z := gen_span_sec_max.
 Definition i64_max : Z := 9223372036854775807.
 
 Inductive err := DurationOutOfRange | DateTimeOutOfRange.
